@@ -773,6 +773,10 @@ def run(ctx):
         "keys that are no parents of the tree are compared through the correspondence only",
     ]
     function_cases(ctx)
+    # the marker lists of real mapping runs: reported = used (in reference order) at every node where a vote was held;
+    # a flattened run (with or without a dropped level) uses the union of every list of the table
+    from harness import mapcheck
+    mapcheck.run_batch(ctx, ctx.n(14, 200), ('c08-',), 'runs', max_levels=4)
 
 
 def replay(ctx, rec):
